@@ -90,3 +90,59 @@ Proof.
   - rewrite enc_hop_length by assumption. reflexivity.
 Qed.
 End SecondHopAgrees.
+
+(** * the second hop built by set_second_hop authenticates at the second AS *)
+Section SecondHopAuthentic.
+Variable cmac : list N -> list N -> list N.
+Variable p : onehop.
+Hypothesis Ht : onehop_typed p = true.
+Variables (ingress : N) (key : list N) (advanced : bool).
+Hypothesis Hin : ingress < 65536.
+Let beta := if advanced then i_segid (o_info p) else mac_beta_step (i_segid (o_info p)) (h_mac (o_hop1 p)).
+Let blk := mac_input beta (i_ts (o_info p)) (h_exp (o_hop1 p)) ingress 0.
+Hypothesis Hmac : (6 <= length (cmac key blk))%nat.
+Hypothesis Hmacb : bytes_ok (cmac key blk) = true.
+
+Lemma beta_lt : beta < 65536.
+Proof.
+  destruct (oh_typed_inv p Ht) as (Hi & H1 & _).
+  pose proof (info_typed_inv _ Hi) as (_ & Hsg & _). pose proof (hop_typed_inv _ H1) as (_ & _ & _ & _ & L1 & B1).
+  unfold beta. destruct advanced; [exact Hsg|]. unfold mac_beta_step.
+  apply (lxor_lt_pow2 _ _ 16); [exact Hsg|].
+  apply (N.lt_le_trans _ (256 ^ N.of_nat (length (firstn 2 (h_mac (o_hop1 p)))))).
+  - apply be_val_lt. unfold bytes_ok in *. apply forallb_forall. intros x Hx. apply In_firstn' in Hx.
+    rewrite forallb_forall in B1. auto.
+  - change (2 ^ 16) with (256 ^ 2). apply N.pow_le_mono_r; [lia|]. rewrite firstn_length. lia.
+Qed.
+
+(** the hop field the model builds, presented to HopMacValidator with the key of the second AS
+    and an info field carrying the chaining value after hop 1, is accepted *)
+Lemma oh_second_hop_authentic :
+  let p' := oh_model_set_second_hop cmac p ingress key advanced in
+  let info2 := mkInfo (i_flags (o_info p)) beta (i_ts (o_info p)) in
+  hop_typed (o_hop2 p') = true
+  /\ forall i st en, v_hop (hop_mac_validator cmac key) i (enc_hop (o_hop2 p')) (enc_info info2) st en = None.
+Proof.
+  intros p' info2.
+  destruct (oh_typed_inv p Ht) as (Hi & H1 & _).
+  pose proof (info_typed_inv _ Hi) as (Hf & Hsg & Hts). pose proof (hop_typed_inv _ H1) as (_ & X1 & _).
+  assert (Hty : hop_typed (o_hop2 p') = true).
+  { unfold p', oh_model_set_second_hop, hop_typed. cbn [o_hop2 h_flags h_exp h_ci h_ce h_mac]. fold beta.
+    unfold calculate_hop_mac. fold blk. rewrite firstn_length, Nat.min_l by lia.
+    assert (Hb6 : bytes_ok (firstn 6 (cmac key blk)) = true).
+    { unfold bytes_ok in *. apply forallb_forall. intros x Hx. apply In_firstn' in Hx. rewrite forallb_forall in Hmacb. auto. }
+    rewrite Hb6. rewrite !andb_true_iff. repeat split; first [lia|reflexivity]. }
+  split; [exact Hty|]. intros i st en. cbn [v_hop hop_mac_validator]. apply hop_mac_check_none.
+  assert (Hi2 : info_typed info2 = true).
+  { unfold info_typed, info2. cbn [i_flags i_segid i_ts]. pose proof beta_lt. rewrite !andb_true_iff. lia. }
+  pose proof (dec_enc_hop _ Hty) as Eh. pose proof (dec_enc_info _ Hi2) as Ei.
+  assert (E1 : hf_mac (enc_hop (o_hop2 p')) = h_mac (o_hop2 p')) by (now apply (f_equal h_mac) in Eh).
+  assert (E2 : hf_exp (enc_hop (o_hop2 p')) = h_exp (o_hop2 p')) by (now apply (f_equal h_exp) in Eh).
+  assert (E3 : hf_cons_ingress (enc_hop (o_hop2 p')) = h_ci (o_hop2 p')) by (now apply (f_equal h_ci) in Eh).
+  assert (E4 : hf_cons_egress (enc_hop (o_hop2 p')) = h_ce (o_hop2 p')) by (now apply (f_equal h_ce) in Eh).
+  assert (E5 : if_segid (enc_info info2) = beta) by (now apply (f_equal i_segid) in Ei).
+  assert (E6 : if_ts (enc_info info2) = i_ts (o_info p)) by (now apply (f_equal i_ts) in Ei).
+  rewrite E1, E2, E3, E4, E5, E6. unfold p', oh_model_set_second_hop. cbn [o_hop2 h_mac h_exp h_ci h_ce]. fold beta.
+  unfold calculate_hop_mac. fold blk. reflexivity.
+Qed.
+End SecondHopAuthentic.
